@@ -1384,12 +1384,8 @@ func (c *Ctx) equal(a, b *Val) string {
 		if a.Term == "(mkIface 0 0)" {
 			return eq(app("itag", b.Term), "0")
 		}
-		// dynamic comparison: equal tags and equal payloads (boxed payloads: identity of the box is
-		// an under-approximation of equality, so the result is left undetermined when boxes differ)
-		r := c.fresh("ifeq", "Bool")
-		c.assumeAlways(implies(eq(a.Term, b.Term), r))
-		c.assumeAlways(implies(not(eq(app("itag", a.Term), app("itag", b.Term))), not(r)))
-		return r
+		// dynamic comparison: equal dynamic types and equal values (boxing is injective)
+		return eq(a.Term, b.Term)
 	}
 	return eq(a.Term, b.Term)
 }
